@@ -190,7 +190,7 @@ def query_block(rng, r, kind, vals, thorough):
 
 def gen_c07(rng, tier):
     thorough = tier != 'quick'
-    ncases = 90 if not thorough else 1200
+    ncases = 90 if not thorough else 900
     cases = []
     # the confirmed defect F3, verbatim: iterate an empty sketch (both modes, all item types)
     ops = []
